@@ -10,7 +10,7 @@ from vlib.session import Session
 
 # unit texts over the `main` interface (spec/ifaces/main.json)
 VOCAB_PATH = ["D", "B", "A:B", ":D", ":C", ":A:D", "*X", "Z", "A", "B:D?", "D !", "O:D:B", "D:B",
-              "A:N 999", "A:N", "A:F"]
+              "A:N 999", "A:N", "A:F", "B:D", "D?", "A:R 3"]
 VOCAB_PATH_SMALL = ["D", "B", "A:B", ":C", ":A:D", "*X", "Z", "A", "B:D?", "D !", "D:B", "A:F"]
 
 
@@ -261,7 +261,7 @@ def selftest():
 
 # ----------------------------------------------------------------------- C07
 VOCAB_FAULT = ["D", "A:B", ":C", "*X", "B:D?", "Z", "A", "D !", "A:N", "A:N 999", "A:N 'x'", "A:T 2", "A:F", "A:G?",
-               "A:N 7", "A:E? 'q'", "D \"a'b\" !", "Z \"it's\"", "A:S 'say \"hi' x"]
+               "A:N 7", "A:E? 'q'", "D \"a'b\" !", "Z \"it's\"", "A:S 'say \"hi' x", "B:D", "D?", "A:B:D", "A:R 3"]
 TINY_SIGMA = "AB:?;\n \"!"
 
 
@@ -539,6 +539,11 @@ def c08_messages(rng, tier):
         msgs.append(b"A:B;K " + blk + b";B\n")
         msgs.append(b"A:H? " + blk + b";D\n")
         msgs.append(b"A:B;S " + txt + b";B\n")
+    for p1 in (b'"x\ny"', b"'\n'", b"'a;\n,b'"):
+        for p2 in (b"#13a\nb", b"#11\n", b"#14;\n,\n"):
+            msgs.append(b"A:S " + p1 + b";K " + p2 + b";B\n")
+            msgs.append(b"A:E? " + p1 + b";H? " + p2 + b";B;:C\n")
+            msgs.append(b"A:K " + p2 + b";S " + p1 + b";E? " + p1 + b";B\n")
     for _ in range(200 if tier == "quick" else 3000):
         # longer seeded payloads: arbitrary UTF-8 strings, all byte values in blocks
         k = rng.randint(4, 24)
@@ -617,6 +622,7 @@ C11_UNITS = [
     (["A", "N"], False, ["#H1F"]),
     (["O", "D", "B"], False, []),
     (["A", "S"], False, ["'x'"]),
+    (["MEAS", "ALL"], True, []),
     (["LONGmnemonicname", "SUBsystemlevel"], True, []),
     (["LONGmnemonicname", "Wide_identifier_1"], False, ["5"]),
 ]
@@ -802,7 +808,7 @@ def c12(tier):
     jobs = [("main", CLASS_SIGMA, 4 if tier == "quick" else 5, "", "header alphabet"),
             ("main", '1+-.Ee, \n;', 4 if tier == "quick" else 6, "A:P ", "decimal alphabet after 'A:P '"),
             ("main", '#HhBbQq1278aF, \n"', 3 if tier == "quick" else 5, "A:P ", "radix/block alphabet after 'A:P '"),
-            ("main", 'a"\'\n;, #1', 4 if tier == "quick" else 6, "A:S ", "string/block alphabet after 'A:S '"),
+            ("main", [97, 34, 39, 10, 59, 44, 32, 35, 49, 255, 195], 4 if tier == "quick" else 5, "A:S ", "string/block alphabet incl. non-UTF-8 bytes after 'A:S '"),
             ("main", 'A1,\n ', 6 if tier == "quick" else 8, "A:P 1,1,1,1,1,1,1,1,1", "parameter count around MAX_ARGS")]
     raw = os.path.join(s.wd, "c12.raw")
     for (iface, sigma, L, prefix, label) in jobs:
@@ -962,7 +968,7 @@ def tree_pool(tier):
     return out
 
 
-SIB_DECLS = ["IN_SEL", "INPut:GAIN", "INIT", "IN1?", "IN_SEL?", "OUT_ENable", "OUTPut:STATe", "OUT2", "OUTA?", "MEASure?", "ME_as", "MEAN?",
+SIB_DECLS = ["SYST:BEEP", "OUTPuts:COUNt?", "OUTP:ALL", "IN_SEL", "INPut:GAIN", "INIT", "IN1?", "IN_SEL?", "OUT_ENable", "OUTPut:STATe", "OUT2", "OUTA?", "MEASure?", "ME_as", "MEAN?",
              "Z_", "ZA", "Z1", "Z_A?", "SYS:IN_SEL", "SYS:INPut", "SYS:INIT?", "SYS:IN1", "SYS:OUT_ENable?", "SYS:OUTPut", "SYS:Z_", "SYS:ZA", "SYS:Z1?"]
 
 
